@@ -159,6 +159,8 @@ namespace occa {
       if (buffer) delete buffer;
 
       buffer = makeBuffer();
+      // The pool owns its buffer: the device must not free it on its own
+      modeDevice->removeMemoryRef(buffer);
       buffer->malloc(alignedBytes);
       size = alignedBytes;
 
@@ -174,6 +176,8 @@ namespace occa {
       packing the space in the process
       */
       modeBuffer_t* newBuffer = makeBuffer();
+      // The pool owns its buffer: the device must not free it on its own
+      modeDevice->removeMemoryRef(newBuffer);
       newBuffer->malloc(alignedBytes);
 
       modeDevice->bytesAllocated += alignedBytes;
@@ -299,6 +303,8 @@ namespace occa {
 
       /*Make a new buffer*/
       modeBuffer_t* newBuffer = makeBuffer();
+      // The pool owns its buffer: the device must not free it on its own
+      modeDevice->removeMemoryRef(newBuffer);
       newBuffer->malloc(newReserved);
 
       modeDevice->bytesAllocated += newReserved;
